@@ -1,6 +1,20 @@
 HOOK_COMMITS = ["02bc05e", "18a3dee"]
 NOT_APPLICABLE = {}
 TEXT = {
+ "C17": {
+  "text": "Kernel-checked over tables regenerated from the real GetEmbeddedMethod for all 8 spork regimes: more active "
+          "sporks never remove a method (tables_monotone), gated methods are available exactly when their own spork is "
+          "enforced along the order accelerator/bridge/htlc (gate_in_order_partial; negative witness for out-of-order "
+          "activation); over the spork state machine: activity is monotone in height, on exactly from acknowledged height + "
+          "delay, never at the genesis store, activation cannot be repeated, only the designated keys (community key only "
+          "inside its window) succeed, the unimplemented-spork report is non-empty iff an enforced spork is unknown. Tied "
+          "to the code by scenarios on a real node comparing every call outcome, IsSporkActive on every height, the report "
+          "and method availability around each enforcement height.",
+  "design_ref": "§3 C17",
+  "note": "Method tables enter as generated facts (trusted extractor calling the real function); F17 (out-of-order "
+          "activation exposes features of not-enforced sporks) is a known finding.",
+  "technique": "Lean 4 proof (decide +kernel over regenerated tables; invariants of the spork state machine) + differential scenarios",
+ },
  "C02": {
   "text": "Kernel-checked: two stores holding the same sequence of accepted commits are observationally equal whatever "
           "refused or rolled-back commits, batching or reorganisations happened on the way (commit_determinism), the "
